@@ -7,18 +7,48 @@ From Proofs.C15 Require Import C15_angle C15_tac C15_nodes.
 Import ListNotations.
 Open Scope R_scope.
 
-(* k = (1 + cos i)/2 for an angle i (degrees), hence in [0,1] *)
-Lemma illuminated_closed j : J2000 ->
-  exists i : R, Moon_illuminated_fraction_disk Rops (epo j) = VFloat ((1 + cos (d2r i)) / 2)
-             /\ 0 <= (1 + cos (d2r i)) / 2 <= 1.
-Proof.
-  intro HJ. red in HJ.
-  eassert (Hrun : Moon_illuminated_fraction_disk Rops (epo j) = _) by (zrun; py_canon_refl).
-  lazymatch type of Hrun with
-  | _ = VFloat ((_ + cos (?i * (PI / 180))) / _) => set (ii := i) in *; exists ii
-  end.
-  split.
-  - rewrite Hrun. unfold d2r. Rlit_norm. f_equal. lra.
-  - pose proof (COS_bound (d2r ii)). lra.
-Qed.
+(* the mean elements D, M, M' as the code's polynomials in T (degrees), and reduced to [0,360) in radians *)
+Definition mD (t : R) : R :=
+  Rlit 2978501921 (-7) + (Rlit 4452671114034 (-7) + (Rlit (-18819) (-7) + (Rlit 10 (-1) / Rlit 5458680 (-1) - t / Rlit 1130650000 (-1)) * t) * t) * t.
+Definition mM (t : R) : R :=
+  Rlit 3575291092 (-7) + (Rlit 359990502909 (-7) + (Rlit (-1536) (-7) + t / Rlit 244900000 (-1)) * t) * t.
+Definition mMp (t : R) : R :=
+  Rlit 1349633964 (-7) + (Rlit 4771988675055 (-7) + (Rlit 87414 (-7) + (Rlit 10 (-1) / Rlit 696999 (-1) + t / Rlit 147120000 (-1)) * t) * t) * t.
+Definition rD t := norm360 (mD t) * (PI / 180).
+Definition rM t := norm360 (mM t) * (PI / 180).
+Definition rMp t := norm360 (mMp t) * (PI / 180).
 
+(* the phase angle exactly as the code computes it: every Angle operation reduces to (-360,360) *)
+Definition illum_i_code (t : R) : R :=
+  rdeg (rdeg (rdeg (rdeg (rdeg (rdeg (rdeg (- rdeg (norm360 (mD t) + - Rlit 1800 (-1)))
+    + - (Rlit 6289 (-3) * sin (rMp t)))
+    + Rlit 21 (-1) * sin (rM t))
+    + - (Rlit 1274 (-3) * sin (Rlit 20 (-1) * rD t - rMp t)))
+    + - (Rlit 658 (-3) * sin (Rlit 20 (-1) * rD t)))
+    + - (Rlit 214 (-3) * sin (Rlit 20 (-1) * rMp t)))
+    + - (Rlit 11 (-2) * sin (rD t))).
+(* Meeus (48.4), no reductions:  i = 180 - D - 6.289 sin M' + 2.100 sin M - 1.274 sin(2D - M')
+   - 0.658 sin 2D - 0.214 sin 2M' - 0.110 sin D   (degrees; Rlit m e = m * 10^e) *)
+Definition illum_i (t : R) : R :=
+  - (mD t + - Rlit 1800 (-1))
+    + - (Rlit 6289 (-3) * sin (rMp t))
+    + Rlit 21 (-1) * sin (rM t)
+    + - (Rlit 1274 (-3) * sin (Rlit 20 (-1) * rD t - rMp t))
+    + - (Rlit 658 (-3) * sin (Rlit 20 (-1) * rD t))
+    + - (Rlit 214 (-3) * sin (Rlit 20 (-1) * rMp t))
+    + - (Rlit 11 (-2) * sin (rD t)).
+Definition Tl (j : R) : R := (j - 2451545) / Rlit 365250 (-1).
+
+Lemma illum_i_cong t : cong360 (illum_i_code t) (illum_i t).
+Proof. unfold illum_i_code, illum_i. cong_strip. Qed.
+
+(* k = (1 + cos i)/2 with the explicit angle i, hence in [0,1] *)
+Lemma illuminated_closed j : J2000 ->
+  Moon_illuminated_fraction_disk Rops (epo j) = VFloat ((1 + cos (d2r (illum_i (Tl j)))) / 2)
+  /\ 0 <= (1 + cos (d2r (illum_i (Tl j)))) / 2 <= 1.
+Proof.
+  intro HJ. red in HJ. split.
+  - rewrite <- (cong_cos _ _ (illum_i_cong (Tl j))).
+    zrun. unfold illum_i_code, rD, rM, rMp, mD, mM, mMp, Tl, d2r. f_equal. Rlit_norm. lra.
+  - pose proof (COS_bound (d2r (illum_i (Tl j)))). lra.
+Qed.
